@@ -405,7 +405,7 @@ def specCompress (rows : List (String × Seq)) (L : Nat) : List (String × Seq) 
 theorem spec_compress_eq (s : SBag) :
     Spec.stepOp s .compress =
       if !s.isAlign then (some s, "na") else
-      if s.rows = [] then (none, "ok[_]") else
+      if s.rows = [] then (some s, "ok[_]") else
       (some { s with rows := (specCompress s.rows s.length.toNat).1 }, (specCompress s.rows s.length.toNat).2) := rfl
 
 theorem column_eq_filterMap (rows : CRows) (j : Nat) (h : ∀ p ∈ rows, j < p.2.length) :
@@ -499,10 +499,15 @@ theorem ref_compress {b : Bag} (h : Good b) : Refines b .compress := by
     by_cases hrows : b.rows = []
     · have hp : (abs b).rows = [] := by simp [pairs, hrows]
       rw [if_pos hp] at e
-      simp at e
+      simp only [Prod.mk.injEq, Option.some.injEq] at e
+      have hemp : b.rows.isEmpty = true := by simp [hrows]
+      simp only [hemp, if_true]
+      exact ⟨e.1, e.2, h⟩
     · have hp : ¬ (abs b).rows = [] := by simpa [pairs] using hrows
       rw [if_neg hp] at e
       simp only [Prod.mk.injEq, Option.some.injEq] at e
+      have hemp : b.rows.isEmpty = false := by cases hb : b.rows <;> simp_all
+      simp only [hemp, Bool.false_eq_true, if_false]
       have hv := compressBag_rect_eq h.rect ha
       have hgood : Good (cmpState b) := by
         obtain ⟨k, i, n, a, al, _⟩ := compressBag_fields hv
